@@ -470,12 +470,14 @@ func (n *Node) Produce(req *ProduceReq) (rsp *ProduceRsp) {
 }
 
 // AddBlock delivers a block the way the network does (validator path).
-func (n *Node) AddBlock(blk []byte) string {
+func (n *Node) AddBlock(blk []byte) string { return n.addBlock(blk, false) }
+
+func (n *Node) addBlock(blk []byte, isSync bool) string {
 	b := DecBlock(blk)
 	if b == nil {
 		return "harness: undecodable block"
 	}
-	r, err := n.hub.RequestFuture(message.ChainSvc, &message.AddBlock{PeerID: "", Block: b, Bstate: nil}, 120*time.Second, "rig").Result()
+	r, err := n.hub.RequestFuture(message.ChainSvc, &message.AddBlock{PeerID: "", Block: b, Bstate: nil, IsSync: isSync}, 120*time.Second, "rig").Result()
 	if err != nil {
 		return "request: " + err.Error()
 	}
